@@ -22,6 +22,11 @@ import (
 
 	"verif/harness/internal/vh"
 	"volcano.sh/volcano/cmd/webhook-manager/app/options"
+	"volcano.sh/volcano/pkg/scheduler/api"
+	"volcano.sh/volcano/pkg/scheduler/conf"
+	"volcano.sh/volcano/pkg/scheduler/framework"
+	"volcano.sh/volcano/pkg/scheduler/plugins/capacity"
+	"volcano.sh/volcano/pkg/scheduler/uthelper"
 	_ "volcano.sh/volcano/pkg/webhooks/admission/queues/validate"
 	"volcano.sh/volcano/pkg/webhooks/router"
 )
@@ -519,6 +524,50 @@ func (w *world) dump() []int64 {
 
 func tag(i int) []int64 { return []int64{int64(-100 - i)} }
 
+// capacityReady opens a real scheduler session with the capacity plugin in hierarchy mode on
+// the queue set and reports whether the plugin accepted the hierarchy (capacity.go
+// buildHierarchicalQueueAttrs / updateAncestors did not abort): every registered function of the
+// plugin answers "reject" otherwise.  Observed through Allocatable on a leaf queue with an
+// empty request.
+func capacityReady(qs []qspec) bool {
+	objs := []*schedulingv1beta1.Queue{}
+	hasChild := map[int64]bool{}
+	for _, q := range qs {
+		o := buildQueue(q)
+		o.Status.State = schedulingv1beta1.QueueStateOpen
+		objs = append(objs, o)
+		p := q.parent
+		if p == 0 {
+			p = 1
+		}
+		if q.name != 1 {
+			hasChild[p] = true
+		}
+	}
+	leaf := int64(-1)
+	for _, q := range qs {
+		if !hasChild[q.name] && (leaf < 0 || q.name != 1) {
+			leaf = q.name
+		}
+	}
+	if leaf < 0 {
+		panic("no leaf queue in a finite queue set")
+	}
+	t := &uthelper.TestCommonStruct{Name: "c10", Plugins: map[string]framework.PluginBuilder{"capacity": capacity.New}, Queues: objs}
+	on := true
+	tiers := []conf.Tier{{Plugins: []conf.PluginOption{{Name: "capacity", EnabledHierarchy: &on, EnabledAllocatable: &on}}}}
+	ssn := t.RegisterSession(tiers, nil)
+	defer t.Close()
+	qi := ssn.Queues[api.QueueID(qname(leaf))]
+	if qi == nil {
+		panic("session lost queue " + qname(leaf))
+	}
+	task := &api.TaskInfo{Name: "probe", Resreq: api.EmptyResource(), InitResreq: api.EmptyResource()}
+	return ssn.Allocatable(qi, task)
+}
+
+const tagCapacity = 901
+
 const tagFinal = 900
 
 // sel 1: a history.  Output: per request  tag(i) verdict ; then tag(900) final queue set
@@ -534,13 +583,18 @@ func run(sel int, in []int64) []int64 {
 		out = append(out, w.step(r))
 	}
 	out = append(out, tag(tagFinal)...)
-	return append(out, w.dump()...)
+	out = append(out, w.dump()...)
+	out = append(out, tag(tagCapacity)...)
+	if w.poisoned {
+		return append(out, 2) // a cycle of parent links: the plugin's recursions are not run on it
+	}
+	return append(out, vh.B(capacityReady(w.queues())))
 }
 
 // ---------- laws: the implementation's verdicts replayed by the extracted checker ----------
 // law input = the history + the verdict the implementation gave to every request.
 // 101 tree shape, 102 per-queue resources, 103 children sums, 104 capability vs
-// nearest ancestor, 105 delete guard.
+// nearest ancestor, 105 delete guard, 106 the capacity plugin accepts the final hierarchy.
 func laws(sel int, in, got []int64, law func(lsel int, lin []int64, sig string)) {
 	h := decHistory(in)
 	lin := append([]int64{}, in...)
@@ -572,6 +626,7 @@ func laws(sel int, in, got []int64, law func(lsel int, lin []int64, sig string))
 	law(103, lin, "")
 	law(104, lin, capSig)
 	law(105, lin, "")
+	law(106, append(append([]int64{}, lin...), got[len(got)-1]), "")
 }
 
 func main() {
